@@ -140,7 +140,9 @@ def save(img, filename, dtype_from='data'):
     # make new image
     ni_img = nipy2nifti(img, data_dtype = io_dtype)
     ftype = _type_from_filename(filename)
-    if ftype.startswith('nifti1'):
+    if ftype == 'nifti1pair':
+        nib.Nifti1Pair.from_image(ni_img).to_filename(filename)
+    elif ftype.startswith('nifti1'):
         ni_img.to_filename(filename)
     elif ftype == 'analyze':
         try:
